@@ -20,4 +20,5 @@ Extraction "../modelrun/model.ml"
   step_f step_q busy_after abs
   inew iadd imatch iupdate live_tickets
   qshared_of_queue queue_of_qshared qthread_init qaccept qcstep qquiescent
-  agg_b listing_ok_b accounting_b.
+  agg_b listing_ok_b accounting_b
+  exhaust_b stats_b update_ok_b update_counts_b.
